@@ -99,6 +99,12 @@ class State:
     def mval(self, m, key, kk):
         return z3.Select(self._marr(m, 'val', kk)[2], key)
 
+    def mvals(self, m, key, kk):
+        """value of a dict whose values are strings: $mvsS / $mvsR (kept apart from the integer-valued maps)"""
+        ks = S if kk == 'str' else I
+        name = '$mvs%s' % ('S' if kk == 'str' else 'R')
+        return z3.Select(z3.Select(self.arr(name, z3.ArraySort(I, z3.ArraySort(ks, S))), m), key)
+
     def mput(self, m, key, val, kk):
         for what, v in (('has', z3.BoolVal(True)), ('val', val)):
             name, rng_, cur = self._marr(m, what, kk)
